@@ -864,6 +864,11 @@ func genC14(out *caseWriter, seed uint64, n int, args []string) error {
 			}
 			c.Tree = []c14Entry{{Kind: 'F', Path: "journal.knut", Raw: text}, {Kind: 'F', Path: "empty.knut", Raw: ""}}
 			fl := c14HostileFlags(r, cmd)
+			if (cmd == "balance" || cmd == "weights" || cmd == "returns") && r.chance(15) {
+				// a count flag at the edge of its type together with the interval that makes it matter
+				fl = []string{"--last", pick(r, []string{"9223372036854775807", "4294967296", "1000000000000", "2147483647", "-9223372036854775808"}),
+					pick(r, []string{"--days", "--weeks", "--months", "--quarters", "--years"})}
+			}
 			if r.chance(60) {
 				fl = append(c14Benign(r, cmd, "journal.knut"), fl...)
 			}
